@@ -86,3 +86,14 @@ type DateTime interface {
 	// GoTime returns the underlying time.Time object.
 	GoTime() time.Time
 }
+
+// unquoteJSON returns the contents of the JSON string in data, without its
+// quotation marks. It returns an error reporting that data cannot be parsed
+// as format if data is not a JSON string: too short, a number, null, etc.
+func unquoteJSON(data []byte, format string) ([]byte, error) {
+	const quotes = 2
+	if len(data) < quotes || data[0] != '"' || data[len(data)-1] != '"' {
+		return nil, fmt.Errorf("%w: Cannot parse %s as %q", ErrSQLType, data, format)
+	}
+	return data[1 : len(data)-1], nil
+}
